@@ -164,8 +164,30 @@ def report_failures(tier, seed, results):
                 print(f"VIOLATION property={PROP} replay={path} no-failing-input-found")
             violations += 1
         else:
-            path = vlib.write_replay(PROP, f"crash-{seed}", [f"harness run {r['label']} did not complete: rc={r['hrc']} {r['hang']} {r['bad'][:2]}", r["err"]])
-            print(f"VIOLATION property={PROP} replay={path} no-failing-input-found")
+            # the harness died (abort = panic while unwinding, or a signal): it prints every op before executing it, so the
+            # last case of its transcript, up to and including the last line, is the failing script
+            if "crash" in seen:
+                continue
+            seen.add("crash")
+            keep = os.path.join(vlib.TMP, f"cs-crash-{os.getpid()}.txt")
+            vlib.pipe_to_driver([vlib.hbin(BIN)] + r["tail"], keep=keep)
+            cid, ops = vlib.last_case(keep) if os.path.exists(keep) else (None, [])
+            if os.path.exists(keep):
+                os.unlink(keep)
+            def still_dies(o):
+                return run_script_ops(o)["hrc"] not in (0, None)
+            if ops and still_dies(ops):
+                ops = vlib.ddmin(ops, still_dies)
+                path = vlib.write_replay(PROP, f"abort-{seed}",
+                                         [f"property {PROP}: {WHAT}",
+                                          f"the process running the real code dies inside the last operation of this script (harness exit status {r['hrc']}; {r['err'].strip()[-300:]}):",
+                                          "the operation neither yields its items nor returns, so the accumulated amounts are not delivered exactly once",
+                                          f"found by: h_changeset {' '.join(r['tail'])} (case {cid}); minimised by ddmin",
+                                          f"replay: bin/check {PROP} --replay <this file>"], ops, DOMAIN)
+                print(f"VIOLATION property={PROP} replay={path}")
+            else:
+                path = vlib.write_replay(PROP, f"crash-{seed}", [f"harness run {r['label']} did not complete: rc={r['hrc']} {r['hang']} {r['bad'][:2]}", r["err"]])
+                print(f"VIOLATION property={PROP} replay={path} no-failing-input-found")
             violations += 1
         if violations >= 4:
             break
